@@ -11,6 +11,7 @@ mod c11;
 mod c12;
 mod c16;
 mod c17;
+mod c19;
 mod c20;
 
 fn main() {
@@ -33,6 +34,7 @@ fn main() {
         "c12" => c12::run(rest),
         "c16" => c16::run(rest),
         "c17" => c17::run(rest),
+        "c19" => c19::run(rest),
         "c20" => c20::run(rest),
         other => {
             eprintln!("unknown command {other}");
